@@ -719,7 +719,16 @@ def burst_case(ctx, case):
     ctx.label('burst')
 
 
-COMPONENTS = {'burst': burst_case,
+def flood_case(ctx, case):
+    """'Any sequence of packets written to a connection is recovered ...
+    no packet is lost': also a sequence far longer than any everyday
+    backlog, written in one go (C11's flood scenario: 70 000 / 300 000
+    queued packets behind a keep-alive reply)."""
+    from props import c11_play as P11
+    P11.flood_case(ctx, case)
+
+
+COMPONENTS = {'flood': flood_case, 'burst': burst_case,
               'writer': writer_case, 'reader': reader_case,
               'loop': loop_case, 'fuzz_stream': fuzz_stream_case,
               'sessions': sessions_case}
@@ -991,6 +1000,12 @@ def t_burst(ctx, n):
     hyp(ctx, 'burst', strat, body, n)
 
 
+def t_flood(ctx, version, compress, n, who):
+    case = {'version': version, 'compress': compress, 'n': n, 'who': who}
+    flood_case(ctx, case)
+    ctx.sample(case, 'flood')
+
+
 def tasks(tier):
     q = tier == 'quick'
     ncomb = len(FAMILY) * len(MODES) * 2
@@ -1000,6 +1015,11 @@ def tasks(tier):
           ('mutated_streams', t_fuzz_hyp, dict(n=400 if q else 20000))]
     for w in range(6):
         tl.append(('big_%d' % w, t_big, dict(which=w)))
+    for k, (v, comp, who) in enumerate([(340, 256, 'listener'),
+                                        (757, None, 'user')]):
+        tl.append(('flood_%d' % k, t_flood,
+                   dict(version=v, compress=comp,
+                        n=70000 if q else 300000, who=who)))
     if not q:
         tl.append(('fuzz_stream', t_fuzz, dict(runs=400000)))
     nsh = 6
